@@ -141,6 +141,7 @@ func (m *DefaultInterfaceMocker) Return(value ...interface{}) *When {
 		when *When
 		err  error
 	)
+	checkReturnCount(m.funcDef, value)
 	if when, err = CreateWhen(m, m.funcDef, nil, value, true); err != nil {
 		panic(err)
 	}
